@@ -27,6 +27,7 @@ RULE = ("cases (shared by both stages): 6 encoders (string, strings, der and the
         "ecdsa_sign_det lines (the nonce list of the *_det lines is the real rfc6979.generate_k for retry_gen = 0..; an entropy "
         "nonce is the real util.randrange on the same entropy stream) and the ecdsa_verify_* line of every signature returned; "
         "full cross product on toy and small named curves, every entry point and every encoder at least once on each big curve.")
+RULE = RULE + E.COUNT_RULE
 ASSUMPTIONS = ["digests are non-empty",
                "signing may legitimately end without a signature: RSZeroError for an explicit/entropy nonce with r = 0 or s = 0 (toy "
                "curves), BadDigestError when truncation is disabled and the digest is longer than the order; then nothing is claimed",
@@ -328,6 +329,7 @@ def all_cases(ctx):
 
 
 def correspond(ctx):
+    E.note_budget(ctx)
     c = {"sign": ParCorr(ctx, "sign"), "verify": ParCorr(ctx, "verify")}
     with E.timed(ctx, "correspond: real code + lines"):
         for tag, case, in_corr in all_cases(ctx):
@@ -349,4 +351,4 @@ def search(ctx):
 
 
 def replay(rec):
-    return run_case(rec["input"]) is not None
+    return E.replay_record(rec, run_case, lambda c: "entry" in c and "curve" in c and "enc" in c)
